@@ -116,22 +116,27 @@ def sampleD (fuel ifuel : Nat) (d : Dist Float) (g : Rng) : Option (Float × Rng
     | some (x, g) =>
       match Cv.Gamma.sample fuel d.beta_gen.alpha d.beta_gen.beta g with
       | none => none
-      | some (y, g) => some (x / (x + y), g)
+      | some (y, g) =>
+        -- repair F43: both variates underflowed; this branch reads `self.alpha`, `self.beta`
+        if x + y == 0 then
+          let (u, g) := g.f64 (α := Float)
+          some (if u * (d.alpha + d.beta) < d.alpha then 1 else 0, g)
+        else some (x / (x + y), g)
   | .binomial d => Cv.Binomial.sample fuel ifuel d.n d.p g
   | .chisquared d => Cv.Gamma.sample fuel d.sampler.alpha d.sampler.beta g
   | .discreteuniform d => Cv.DiscreteUniform.sample lemireFuel d.lower d.upper g
   | .exponential d =>
-    let (u, g) := Cv.Uniform.sample d.rng.lower d.rng.upper g
+    let (u, g) := Cv.UniformF.sample d.rng.lower d.rng.upper g
     some (-(Float.log u) / d.lambda, g)
   | .gamma d => Cv.Gamma.sample fuel d.alpha d.beta g
   | .gumbel d =>
-    let (u, g) := Cv.Uniform.sample d.uniform_gen.lower d.uniform_gen.upper g
+    let (u, g) := Cv.UniformF.sample d.uniform_gen.lower d.uniform_gen.upper g
     some (d.mu - d.beta * Float.log (-(Float.log u)), g)
   | .normal d => Cv.Normal.sample fuel d.mu d.sigma g
   | .pareto d => some (Cv.Pareto.sample d.alpha d.minval g)
   | .poisson d => Cv.Poisson.sample fuel d.lambda g
   | .t d => Cv.T.sample fuel d.dof g
-  | .uniform d => some (Cv.Uniform.sample d.lower d.upper g)
+  | .uniform d => some (Cv.UniformF.sample d.lower d.upper g)
 
 /-- `alea::set_seed(seed)` followed by `n` calls of `sample()`. -/
 def drawsD (fuel ifuel : Nat) (d : Dist Float) (seed : UInt64) (n : Nat) : Option (List Float) :=
